@@ -1,20 +1,22 @@
 import Snel.Lemmas.ReplayInv
+import Snel.Lemmas.ReplayMerge
 /-!
 # C04 — REPLAY returns a context's events in the order they were appended
 
 Model: `Snel.Model.ReplayOrder` on top of the shard machine — bucket order of the memtable,
 row order of flushed segments (contexts in key order, regrouped per event type, zones =
 consecutive chunks), compaction outputs in the order `ZoneMerger` (std `BinaryHeap` keyed by
-context id only, modelled push/pop exactly) emits them, the memtable flow (active table, then
+(context id, cursor index), modelled push/pop exactly) emits them, the memtable flow (active table, then
 passive buffers), the segment flow (directories in label order) and their fan-in (`IsReplay`:
 ANY interleaving, then deduplication by id).
 
 "In append order" is stated as: the answer is a subsequence (`List.Sublist`) of the append log
 `storedEvents ops`; together with membership this is equality with the context's log.
 
-Full-strength order is FALSE of the code as modelled — four independent departures, each with a
+Full-strength order is FALSE of the code as modelled — three independent departures, each with a
 proved witness that the `replay` stream reproduces on the real engine (`C04_order_fails`,
-`C04_order_passive_fails`, `C04_order_level_fails`, `C04_order_heap_fails`). What holds is
+`C04_order_passive_fails`, `C04_order_level_fails`). A fourth one (heap ties inside a compaction
+output) was repaired by fix 32904ff; its place is taken by `C04_heap_stable`. What holds is
 proved for every crash-free interleaving of stores, flushes and flush-worker steps:
 membership, per-source order, order across level-0 segments, and order of the whole answer
 when only one of the two flows holds rows of the context.
@@ -91,8 +93,7 @@ theorem C04_l0_segments_in_order (cap k nt t : Nat) (ops : List Op) (h : CrashFr
 context lives only in flushed level-0 segments (memtable flow empty), or only in the active
 table (segment flow empty, no passive buffer holds a row of it) — then EVERY fan-in schedule
 answers in append order. Missing for the full statement: an order between the two flows,
-between active and passive buffers, between levels, and inside compaction outputs (see the
-`_fails` theorems). -/
+between active and passive buffers and between levels (see the `_fails` theorems). -/
 theorem C04_order_partial (cap k nt t : Nat) (ops : List Op) (h : CrashFree ops) (q : Sel)
     (hq : selTypes q nt = [t]) (r : List Ev)
     (hr : IsReplay (runOps (Shard.init cap k) ops) q nt r)
@@ -176,33 +177,41 @@ theorem C04_order_level_fails :
   subst this
   decide
 
-/-- (c) Heap ties. Capacity 2, one event per zone: segment 00000 holds zones [1], [2], segment
-00001 zones [3], [4], all of context 0. The merger's heap is keyed by the context id only; std's
-`BinaryHeap` pops the four tied cursors in the order 0, 2, 1, 3, so the compaction output is
-1, 3 / 2, 4 and EVERY schedule answers 1, 3, 2, 4 from then on. Finding C04-heap-tie-order. -/
-theorem C04_order_heap_fails :
-    ∃ (ops : List ROp), ∀ r, IsReplay (runR 1 (Shard.init 2 2) ops) ⟨0, none⟩ 1 r →
-      r.map (·.k) = [1, 3, 2, 4] ∧ ¬ r.Sublist (storedEventsR ops) := by
-  refine ⟨[.op (.store ⟨1, 0, 0⟩), .op (.store ⟨2, 0, 0⟩), .op .drain, .op (.store ⟨3, 0, 0⟩),
-    .op (.store ⟨4, 0, 0⟩), .op .drain, .compact], ?_⟩
-  intro r hr
-  have := (C04_single_flow_deterministic _ _ _ r hr).1 (by decide)
-  subst this
-  decide
+/-! ## The compaction merger (after fix 32904ff: heap ordered by (context id, cursor index)) -/
 
-/-- The component statement behind (c): "rows of one context leave the merger in cursor order"
-is false of the modelled `BinaryHeap` (prove-or-refute of DESIGN §6.4: refuted). The `heap`
-stream compares this model with the real `ZoneMerger::next_zone` row by row. -/
-theorem C04_heap_stable_fails :
-    ¬ (∀ (cs : List (List Ev)) (c : Nat),
-        (mergeCursors cs).filter (·.ctx == c) = cs.flatten.filter (·.ctx == c)) := by
-  intro hall
-  have := hall [[⟨1, 2, 0⟩], [⟨2, 2, 0⟩], [⟨3, 2, 0⟩], [⟨4, 2, 0⟩]] 2
-  revert this
-  decide
+/-- Stability of the compaction merge, for EVERY priority queue that satisfies the C10 contract
+`PQ.Correct` for the order (context id, input position): whatever the cursor set (each cursor
+sorted by context id, as zones are), the rows of one context leave the merger in input order —
+cursor order (segment label, zone id), then position. So a compaction output keeps a context's
+append order. The contract ("pop returns an entry that may come first") is what std's
+`BinaryHeap` provides for a total order; the engine's concrete queue is modelled as `heapPQ`
+(array heap, push/pop exactly as std) and tied to the real `ZoneMerger` by the exact `heap` stream
+— that `heapPQ` satisfies the contract is NOT proved here (nor in C10), it is the library's
+documented behaviour. Before the fix the heap compared the context id only and this statement was
+false (`1,3,2,4`; finding C04-heap-tie-order, fixed). -/
+theorem C04_heap_stable (pq : Snel.Order.PQ (Snel.Order.Item DRow))
+    (hpq : pq.Correct leD (fun _ => True)) (cs : List (List Ev))
+    (hs : ∀ c ∈ cs, c.Pairwise (fun a b => ctxCmp a.ctx b.ctx ≠ .gt)) (c : Nat) :
+    (mergeCursorsPQ pq cs).filter (·.ctx == c) = cs.flatten.filter (·.ctx == c) :=
+  mergeCursorsPQ_stable pq hpq cs hs c
 
-/-- … while rows of DIFFERENT contexts are ordered by the context id's bytes (`c10 < c2`). -/
-example : (mergeCursors [[⟨1, 2, 0⟩, ⟨2, 2, 0⟩], [⟨3, 10, 0⟩, ⟨4, 2, 0⟩]]).map (·.k) = [3, 1, 4, 2] := by decide
+/-- The contract is satisfiable: the reference queue (linear scan for the greatest entry under
+the engine's comparison shape) meets it. -/
+example : (Snel.Order.selPQ (Snel.Order.itemCmp true cmpD)).Correct leD (fun _ => True) :=
+  Snel.Order.selPQ_correct cmpD_tpo true
+
+/-- The modelled `BinaryHeap` on the former witness of the tie defect (four single-row cursors
+of one context) and on cursors with different contexts (`c10 < c2`). -/
+example : (mergeCursors [[⟨1, 2, 0⟩], [⟨2, 2, 0⟩], [⟨3, 2, 0⟩], [⟨4, 2, 0⟩]]).map (·.k) = [1, 2, 3, 4] := by decide
+example : (mergeCursors [[⟨1, 2, 0⟩, ⟨2, 2, 0⟩], [⟨3, 10, 0⟩, ⟨4, 2, 0⟩]]).map (·.k) = [3, 1, 2, 4] := by decide
+
+/-- Regression history of the fixed finding: two segments of two zones each, one context,
+one compaction round — the output and every replay are in append order. -/
+example :
+    let ops : List ROp := [.op (.store ⟨1, 0, 0⟩), .op (.store ⟨2, 0, 0⟩), .op .drain, .op (.store ⟨3, 0, 0⟩),
+      .op (.store ⟨4, 0, 0⟩), .op .drain, .compact]
+    (segZones 1 (runR 1 (Shard.init 2 2) ops) 10000 0).map (·.map (·.k)) = [[1, 2], [3, 4]] ∧
+    (replayMemFirst (runR 1 (Shard.init 2 2) ops) ⟨0, none⟩ 1).map (·.k) = [1, 2, 3, 4] := by decide
 
 /-! ## Non-vacuity -/
 
